@@ -65,7 +65,20 @@ def run_cases(chk, binp, cases, pf_ok, pf):
 def gen(binp, seed, n):
     rng = random.Random(seed)
     sc, qc = P.call_pool(binp, seed, 1500, 600)
-    return [{"calls": [P.make_call(rng, sc, qc) for _ in range(rng.randint(2, 8))]} for _ in range(n)]
+    hs = [{"calls": [P.make_call(rng, sc, qc) for _ in range(rng.randint(2, 8))]} for _ in range(n)]
+    # calls with and without a format registry in one history (a nil registry is accepted: formats are then not checked)
+    fmt = [dict(c) for c in sc if '"format"' in json.dumps(c["schema"]) and not c.get("usenumber")] + [dict(w) for w in P.FORMAT_WORKLOADS]
+    for _ in range(max(4, n // 12)):
+        calls = []
+        for _ in range(rng.randint(2, 6)):
+            c = dict(rng.choice(fmt))
+            if rng.random() < 0.5:
+                c["noformats"] = True
+            else:
+                c.pop("noformats", None)
+            calls.append({"kind": rng.choice(["oneshot", "validator"]), "schema": c})
+        hs.append({"calls": calls})
+    return hs
 
 
 def run(chk):
